@@ -51,6 +51,7 @@ PROPS = {
         "assumptions": COMMON_ASSUME,
     },
     "C01": {
+        "lean_modules": ["InTotoModel.Props.C01", "InTotoModel.Props.NonVacuity"],
         "claim": "verify = ok implies: keys non-empty, pairwise distinct intrinsic ids (no alias), the block is a layout, every supplied key has a valid signature attributed to its own id over exactly the block's content, and that content is what all later stages enforce; with the four failure clauses as corollaries. Lean theorems for every environment, iteration order and fuel; tied to in_toto_verify by fault-injected end-to-end scenarios with all key schemes.",
         "level_note": "Trusted: Lean kernel; env.valid abstracts ring + signed-text derivation (C11); 'a post-signing change invalidates the signature' composes with C05 and the unforgeability of the schemes.",
         "technique": "Lean 4 theorems about an executable model + model/implementation correspondence check (differential run with property oracle)",
@@ -66,6 +67,7 @@ PROPS = {
         ]
 },
     "C02": {
+        "lean_modules": ["InTotoModel.Props.C02", "InTotoModel.Props.NonVacuity"],
         "claim": "verify = ok implies, for every step, max(1,threshold) distinct key ids that are in the step's pubkeys, in the key table, and have a file <step>.<prefix8>.link carrying a signature of that id valid under that key; evidence of unlisted keys and files filed under a prefix none of their signatures carries never count. Lean theorems (induction over the directory listing and the link tables); end-to-end fault injection on the real code.",
         "level_note": "Trusted: Lean kernel; hypotheses stated in the theorem: distinct step names, key table files keys under their own id (C12), glob-safe step names.",
         "technique": "Lean 4 theorems about an executable model + model/implementation correspondence check (differential run with property oracle)",
@@ -83,6 +85,7 @@ PROPS = {
         ]
 },
     "C06": {
+        "lean_modules": ["InTotoModel.Props.C06", "InTotoModel.Props.NonVacuity"],
         "claim": "verify = ok implies the enforced layout's expiry is not earlier than the clock reading, and the same for every sub-layout that counted as evidence (via the C15 theorem, recursively). Lean theorems for all clocks; boundary, far past/future and offset-notation scenarios on the real code with the clock hook.",
         "level_note": "Trusted: Lean kernel; chrono's RFC 3339 reader (text with any offset -> instant) is library behaviour exercised by the offset scenarios.",
         "technique": "Lean 4 theorems about an executable model + model/implementation correspondence check (differential run with property oracle)",
@@ -100,6 +103,7 @@ PROPS = {
         ]
 },
     "C07": {
+        "lean_modules": ["InTotoModel.Props.C07", "InTotoModel.Props.NonVacuity"],
         "claim": "verify = ok implies that for every step with threshold >= 2 all verified links (sub-layout summaries included) have identical materials and identical products; a single dissenting pair makes the agreement stage fail. Lean theorems; dissent scenarios (digest, path, extra entry) on the real code.",
         "level_note": "Trusted: Lean kernel; artifact maps compared as the code compares them (BTreeMap/HashMap equality = canonical list equality).",
         "technique": "Lean 4 theorems about an executable model + model/implementation correspondence check (differential run with property oracle)",
@@ -115,6 +119,7 @@ PROPS = {
         ]
 },
     "C08": {
+        "lean_modules": ["InTotoModel.Props.C08", "InTotoModel.Props.NonVacuity"],
         "claim": "An inspectionStarted event of a layout occurs in the trace only if stages 1-9 of that layout passed; if any of them fails the result is not ok and the trace has no event of that layout; success requires every inspection to have been started and exited 0, and the rule engine to accept every inspection against the extended link table. Lean theorems over the event trace (induction on delegation depth); sentinel-based scenarios on the real code.",
         "level_note": "Trusted: Lean kernel; process spawning, CWD handling, what record_artifacts('.') sees and the link file written afterwards are runtime behaviour: observed, not modelled.",
         "technique": "Lean 4 theorems about an executable model + model/implementation correspondence check (differential run with property oracle)",
@@ -141,8 +146,9 @@ PROPS = {
         "assumptions": COMMON_ASSUME + ["'the same however obtained' is read as 'a function of the four components': raw-bytes constructors use an absent hash-algorithm list, SPKI/PKCS#8 ones [sha256, sha512], by design of the library"],
     },
     "C13": {
-        "claim": "Order-independence of the three order-sensitive decisions (signature counting with early exit, agreement check with arbitrary reference, representative link = smallest key id) are Lean theorems for all inputs; the full composition (C13_Full) is stated, evaluated by the driver under two opposite orders for every scenario, and the real run is repeated with fresh hash seeds.",
-        "level_note": "Trusted: Lean kernel; partial: the end-to-end composition theorem is not yet proved; side effects of inspections of sibling sub-layouts are outside the statement.",
+        "lean_modules": ["InTotoModel.Props.C13", "InTotoModel.Props.NonVacuity"],
+        "claim": "c13_full: for every environment, layout block, caller keys, link directory, name and fuel, and any two families of hash-map iteration orders (each only assumed to return a rearrangement), the model's verification succeeds under one iff it succeeds under the other, with the same summary link; failure is always an error, never a panic, and is order independent too. Proved through all twelve stages (Lemmas/Determinism.lean): loops as order-free filters / all-or-nothing maps, tables of two runs related by 'same keys, values up to permutation', every consumer reads tables by lookup only. The three order-sensitive decisions (signature counting with early exit, agreement with an arbitrary reference link, representative = smallest key id) are separate theorems. Non-vacuity: a concrete scenario (threshold-2 step, delegated sub-layout, MATCH rule, inspection) is kernel-checked to verify under two different orders. The driver evaluates every generated scenario under two opposite orders and the real run is repeated with fresh hash seeds.",
+        "level_note": "Trusted: Lean kernel; the model's tie to verifylib.rs is the differential run. Outside the statement: which inspections of sibling sub-layouts have already run when a run fails (depends on the order; the verdict does not).",
         "technique": "Lean 4 theorems about an executable model + model/implementation correspondence check (differential run with property oracle)",
         "rule": "cases = end-to-end scenarios: a valid layout + link directory (real keys of every scheme, real signatures, optional sub-layouts and inspections) materialised in a scratch directory, usually with one injected fault whose effect is known by construction; ops = verify(scenario with constructed signature validity, observed inspection outcomes) run through the real in_toto_verify with a pinned clock; the model is evaluated under two opposite hash-map iteration orders; distinct = distinct scenario; all are non-trivial (they get past argument parsing into stage 1)",
         "trusted_base": [
@@ -151,7 +157,7 @@ PROPS = {
                 "the rule engine inside the pipeline is Model/Rules.lean (see C03)"
         ],
         "partial": [
-                "C13_Full (composition through all stages) is stated but not yet proved; covered by two-order evaluation and N-fold repetition"
+                "side effects of inspections inside sibling sub-layouts of a failing run are not part of the verdict and may differ between orders"
         ],
         "assumptions": [
                 "the Lean model is hand-written; its tie to the Rust code is the differential run (sampled, plus the stated exhaustive scopes)"
@@ -168,6 +174,7 @@ PROPS = {
         "assumptions": COMMON_ASSUME,
     },
     "C15": {
+        "lean_modules": ["InTotoModel.Props.C15", "InTotoModel.Props.NonVacuity"],
         "claim": "verify = ok implies every sub-layout that counted as evidence is listed under an authorized key of the step, carries that key's valid signature, and has itself passed the complete verify routine with that single key, the step's name and the sub-directory <step>.<prefix8>; plus the summary theorem (requested name; first step's materials; last step's products and command/byproducts; empty link for a step-less layout). Lean theorems; delegation scenarios (depth 1-2) with every inner failure mode on the real code.",
         "level_note": "Trusted: Lean kernel; recursion depth is fuel in the model (running out is an error, never a success).",
         "technique": "Lean 4 theorems about an executable model + model/implementation correspondence check (differential run with property oracle)",
